@@ -10,7 +10,8 @@ Open Scope N_scope.
 
 Definition with_dry (o : empty_opts) (b : bool) : empty_opts :=
   {| eo_trash_dirs := eo_trash_dirs o; eo_interactive := eo_interactive o; eo_days := eo_days o; eo_dry_run := b;
-     eo_verbose := eo_verbose o; eo_environ := eo_environ o; eo_uid := eo_uid o |}.
+     eo_verbose := eo_verbose o; eo_environ := eo_environ o; eo_uid := eo_uid o;
+     eo_all_users := eo_all_users o |}.
 
 Lemma ok_to_delete_ignores_dry o b p : ok_to_delete (with_dry o b) p = ok_to_delete o p.
 Proof. reflexivity. Qed.
